@@ -88,9 +88,10 @@ def run(cmd, cwd=None, timeout=None, env=None, stdin=None, stdout=None):
 # ---- the tie, part 1: constants regenerated from the source -----------------------------
 def regen_consts(ctx):
     """Regenerates Generated/Consts.lean (constants) and Generated/Shapes.lean (field and variant
-    names of the modelled types) from /repo's current source."""
+    names of the modelled types) and Generated/Sites.lean (functions and explicit panic sites of the
+    modelled files) from /repo's current source."""
     outs = []
-    for script in ("extract_consts.py", "extract_shapes.py"):
+    for script in ("extract_consts.py", "extract_shapes.py", "extract_sites.py"):
         r = run([sys.executable, os.path.join(VERIF, "tools", script)])
         outs.append(r.stdout)
         if r.returncode != 0:
@@ -252,6 +253,6 @@ TRUSTED_BASE = [
     "Lean 4.33.0 kernel (elaborated proofs; thorough tier re-checks the .olean files with leanchecker)",
     "axioms per theorem audited by `#print axioms`: subset of {propext, Classical.choice, Quot.sound}",
     "Lean compiler/runtime for the executable use of the model (driver, monitors)",
-    "tools/extract_consts.py and tools/extract_shapes.py (constants, and the field/variant names of the modelled types, regenerated from /repo on every run; Model/Inventory.lean must still compile against them)",
+    "tools/extract_consts.py, tools/extract_shapes.py and tools/extract_sites.py (constants, the field/variant names of the modelled types, and the functions with their explicit panic sites of the modelled files, regenerated from /repo on every run; Model/Inventory.lean and Model/SiteInventory.lean must still compile against them)",
     "the Rust correspondence harness and the comparison scripts in tools/",
 ]
